@@ -154,8 +154,8 @@ func roundtrip(rec *Rec, format int) (im Imp) {
 		if p != "" {
 			im.Bars = []IBar{}
 		}
-	case <-time.After(10 * time.Second):
-		im.Panic = "timeout: export + import did not return within 10 s"
+	case <-time.After(30 * time.Second):
+		im.Panic = "timeout: export + import did not return within 30 s"
 	}
 	return im
 }
